@@ -118,6 +118,10 @@ def oracle(spec, run, pid=ID):
         if chain & {"timed_window", "timed_window_unique"} and chain & {"delay", "rate_limit"}:
             complete = False
         v += local.check_node(pid, spec, i, inputs[i], outputs[i], complete=complete)
+    for idx, rid in run.log.mutated():
+        v.append(("%s:%s:batch-mutated-after-emission" % (pid, spec["nodes"][rid]["k"]),
+                  "batch emitted by node %d at log[%d] changed later" % (rid, idx)))
+        break
     # each consumer invocation finished exactly once is the harness's doing; exceptions carried
     # by emit futures are not expected here (no faults injected)
     for r in run.emits:
